@@ -1,8 +1,8 @@
 """C09: notify / free / create on related notes is safe."""
 from checks import e3check
 
-QUICK = ['ns_h_free_adopt_R1', 'notep_freeroot_freechild_R2', 'notep_freechild_freegrand_R2']
-THOROUGH = ['notep_freeroot_freechild_R3', 'notep_freechild_freegrand_R3', 'notep_freechild_notifyroot_R2', 'notep_freechild_notifyroot_R3', 'note_freechild_notifyroot_R3']
+QUICK = ['ns_h_free_adopt_R1', 'notep_freeroot_freechild_R2', 'notep_freechild_freegrand_R2', 'notep_freeroot_freechild_R3']
+THOROUGH = ['notep_freechild_freegrand_R3', 'notep_freechild_notifyroot_R2', 'notep_freechild_notifyroot_R3', 'note_freechild_notifyroot_R3']
 scenarios, jobs, confirm, info = e3check.make('C09', QUICK, THOROUGH,
     'SEQUENTIAL HALF: harness/e3/note_seq.c h_free_adopt, one thread, one context - after nsync_note_free(child) the grandchild is adopted by the root (a later notify(root) reaches it), every note can then be '
     'freed, and no access touches a freed note (liveness bit per object in the memory model), for every deadline assignment of the tree. '
